@@ -258,6 +258,11 @@ def run(run):
                 m['more'] = r.choice([0, 0xFF])
                 m['next'] = gen.byte(r)
             both(run, m)
+    # (iii-b) device-identification responses built from objects that do not (or only just) fit one PDU:
+    # what is encoded must still be a spec PDU of at most 253 bytes holding a prefix of the objects,
+    # More Follows = 0xFF and Next Object Id = the first object left out (spec 6.21)
+    if run.mine(1):
+        devid_overflow(run, r)
     # (iv) exception layout: every function code x every code
     for fc in range(1, 128):
         if not run.mine(fc):
@@ -286,6 +291,62 @@ def run(run):
     run.observed['kinds'] = len(kinds)
 
 
+def devid_overflow(run, r):
+    import pymodbus.mei_message as mm
+    sizes = []
+    for first in (0, 1, 50, 100, 120, 200, 243, 244, 245):
+        for tot in range(240, 256):
+            sizes.append((first, tot))
+    for first, tot in sizes:
+        # objects (id ascending) whose 2+len sizes add up to exactly tot
+        lens, left, ids = [], tot, []
+        if first + 2 <= left:
+            lens.append(first)
+            left -= first + 2
+        while left >= 2:
+            n = min(left - 2, r.choice([left - 2, r.randint(0, 60), 100]))
+            if left - (n + 2) == 1:
+                n -= 1 if n else 0
+                if left - (n + 2) == 1:
+                    break
+            lens.append(n)
+            left -= n + 2
+        if sum(x + 2 for x in lens) != tot or any(x > 245 or x < 0 for x in lens):
+            continue
+        ids = sorted(r.sample(list(range(0, 7)) + list(range(0x80, 0x100)), len(lens)))
+        objs = [(i, gen.blob(r, n)) for i, n in zip(ids, lens)]
+        devid_one(run, {'op': 'devid-overflow', 'read_code': r.randint(1, 3), 'objects': objs})
+
+
+def devid_one(run, case):
+    import pymodbus.mei_message as mm
+    objs = [(i, bytes(v)) for i, v in case['objects']]
+    tot = sum(2 + len(v) for _, v in objs)
+    run.count('devid_overflow_cases')
+    msg = mm.ReadDeviceInformationResponse(case['read_code'], dict(objs))
+    try:
+        pdu = bytes([43]) + msg.encode()
+    except Exception as e:  # noqa
+        run.violation('devid-overflow:raised', case, 'encode raised %r' % (e,))
+        return
+    fit, used = [], 7
+    for i, v in objs:
+        if used + 2 + len(v) > 253:
+            break
+        fit.append((i, v))
+        used += 2 + len(v)
+    more = len(fit) < len(objs)
+    want = S.encode({'dir': RSP, 'fc': 43, 'read_code': case['read_code'], 'conformity': 0x83, 'more': 0xFF if more else 0,
+                     'next': objs[len(fit)][0] if more else 0, 'objects': fit})
+    ok = pdu == want
+    run.case(h64(('devid-overflow', repr(case))), True,
+             sample={'op': 'encode', 'kind': 'rsp/43 objects of %d bytes in total' % tot, 'pdu_len': len(pdu), 'objects_sent': len(fit), 'of': len(objs),
+                     'verdict': 'agrees' if ok else 'differs'}, sample_class=('devid-overflow', more))
+    if not ok:
+        run.violation('devid-overflow:%s' % ('too-long' if len(pdu) > 253 else 'content'), case,
+                      'objects of %d bytes in total: encoded a %d-byte PDU %s..., the spec page is %d bytes %s...' % (tot, len(pdu), pdu[:12].hex(), len(want), want[:12].hex()))
+
+
 def dispatch(run):
     """class identity for every fc in both decoders' lookup, and sub-function re-classing"""
     for (d, fc), cls in A.CLASS.items():
@@ -306,6 +367,13 @@ def dispatch(run):
 
 
 def replay(run, case):
+    if case.get('op') == 'dispatch':
+        dispatch(run)
+        run.evaluations += 1
+        return
+    if case.get('op') == 'devid-overflow':
+        devid_one(run, case)
+        return
     m = case['m']
     if 'records' in m:
         m['records'] = [tuple(x) if isinstance(x, list) else x for x in m['records']]
